@@ -29,3 +29,152 @@ def replay(payload):
 
 def finding_still_fails(f):
     return False, "no open findings"
+
+
+# ---------------------------------------------------------------------------------------------
+# Supplementary oracle (exploration, not covered by the model): the completion clause of C01 under
+# BLOCKED writes.  M2 assumes whole-packet I/O; here packets may sit in _out_packet while the
+# connection drops and reconnects.  Checked directly on the implementation: for every accepted
+# QoS>0 message, on_publish and the published flag of its MQTTMessageInfo occur only in the
+# operation that feeds its final acknowledgement, at most once, and info.rc never changes.
+import paho.mqtt.client as _mqtt
+from vlib import impl as _impl
+
+
+def _blocked_history(rng, n):
+    ops, sock = [], False
+    for _ in range(n):
+        r = rng.random()
+        if not sock:
+            ops.append(("rec",) if r < 0.6 else ("pub", rng.choice([1, 2])))
+            sock = sock or ops[-1][0] == "rec"
+        elif r < 0.30:
+            ops.append(("pub", rng.choice([1, 2])))
+        elif r < 0.45:
+            ops.append(("block", rng.random() < 0.6))
+        elif r < 0.60:
+            ops.append(("connack",))
+        elif r < 0.80:
+            ops.append(("ackall",))
+        elif r < 0.90:
+            ops.append(("lost",))
+            sock = False
+        else:
+            ops.append(("rec",))
+    return ops
+
+
+def _run_blocked(ops, v5=False, clean=False, maxinf=2):
+    c = _impl.make_client(protocol=_mqtt.MQTTv5 if v5 else _mqtt.MQTTv311, clean=clean)
+    c._max_inflight_messages = maxinf
+    c.connect_async("h")
+    infos, completed, problems = {}, [], []
+    cur = {"acking": None}
+
+    def on_publish(cl, ud, mid, *a):
+        completed.append(mid)
+        if cur["acking"] != mid:
+            problems.append(f"on_publish(mid={mid}) outside the operation that processes its final acknowledgement")
+    c.on_publish = on_publish
+    blocked = False
+
+    def apply_block():
+        if c.socks:
+            s = c.socks[-1]
+            s.send_plan.clear()
+            if blocked:
+                s.send_plan.extend([0] * 10000)
+
+    def check_infos(where):
+        for mid, (info, rc0) in list(infos.items()):
+            if info.rc != rc0:
+                problems.append(f"{where}: info.rc of mid {mid} changed from {rc0} to {info.rc}")
+            if info._published and mid not in completed:
+                problems.append(f"{where}: MQTTMessageInfo of mid {mid} reports published before its final acknowledgement")
+    for o in ops:
+        try:
+            if o[0] == "pub":
+                info = c.publish("t", b"x", o[1])
+                if info.rc in (0, 4):
+                    infos[info.mid] = (info, info.rc)
+            elif o[0] == "rec":
+                c.reconnect()
+                apply_block()
+            elif o[0] == "block":
+                blocked = o[1]
+                apply_block()
+                if not blocked and c._sock is not None:
+                    c.loop_write()
+            elif o[0] == "connack" and c._sock is not None:
+                c.socks[-1].feed(_impl.connack(v5=v5))
+                c.loop_read()
+            elif o[0] == "lost" and c._sock is not None:
+                c.socks[-1].eof = True
+                c.loop_read()
+            elif o[0] == "ackall" and c._sock is not None and not blocked:
+                c.loop_write()
+                for m in list(c._out_messages.values()):
+                    if m.state == _mqtt.mqtt_ms_wait_for_puback:
+                        cur["acking"] = m.mid
+                        c.socks[-1].feed(_impl.ack("puback", m.mid))
+                        c.loop_read()
+                    elif m.state == _mqtt.mqtt_ms_wait_for_pubrec:
+                        c.socks[-1].feed(_impl.ack("pubrec", m.mid))
+                        c.loop_read()
+                    elif m.state == _mqtt.mqtt_ms_wait_for_pubcomp:
+                        cur["acking"] = m.mid
+                        c.socks[-1].feed(_impl.ack("pubcomp", m.mid))
+                        c.loop_read()
+                    cur["acking"] = None
+                    for mid in completed:
+                        infos.pop(mid, None) if False else None
+        except OSError:
+            pass
+        check_infos(str(o))
+        if len(set(completed)) != len(completed):
+            problems.append(f"on_publish fired twice for a mid: {completed}")
+            break
+        if problems:
+            break
+        for mid in [m for m in infos if m in completed]:
+            if not infos[mid][0]._published:
+                problems.append(f"mid {mid} completed but its MQTTMessageInfo does not report published")
+            del infos[mid]
+            completed.remove(mid)
+    return problems
+
+
+def _blocked_write_oracle(ctx, out):
+    rng = ctx.rng
+    fixed = [("rec",), ("connack",), ("block", True), ("pub", 1), ("pub", 2), ("lost",), ("rec",), ("block", False),
+             ("connack",), ("ackall",), ("ackall",), ("ackall",)]
+    cases = [(fixed, False, False, 2)]
+    for _ in range(ctx.n(300, 5000)):
+        cases.append((_blocked_history(rng, rng.choice([8, 15, 30])), rng.random() < 0.3, rng.random() < 0.3, rng.choice([0, 1, 2, 20])))
+    for ops, v5, clean, maxinf in cases:
+        out.cases += 1
+        out.stat("blocked-write-history")
+        pr = _run_blocked(ops, v5, clean, maxinf)
+        out.seen(("blocked", tuple(ops), v5, clean, maxinf), nontrivial=any(o[0] == "block" and o[1] for o in ops))
+        if pr:
+            out.violations.append({"case": {"kind": "blocked", "ops": ops, "v5": v5, "clean": clean, "max": maxinf},
+                                   "what": pr[0], "signature": "C01:blocked-write-completion"})
+
+
+_std_run = run
+
+
+def run(ctx, out):          # noqa: F811  (extends the standard session run)
+    _std_run(ctx, out)
+    _blocked_write_oracle(ctx, out)
+
+
+_std_replay = replay
+
+
+def replay(payload):        # noqa: F811
+    case = payload.get("case", {})
+    if case.get("kind") == "blocked":
+        pr = _run_blocked([tuple(o) for o in case["ops"]], case["v5"], case["clean"], case["max"])
+        return (not pr), {"problems": pr}
+    return _std_replay(payload)
